@@ -38,5 +38,4 @@ SPEC = dict(
     assumptions=["PARTIAL: the prerequisite guarantee is proved for fresh starts (the Do->Doing / Undo->Undoing write) over all graphs and all event lists; for re-runs after Retry it is monitored on the implementation, not proved (do handlers), and refuted for undo handlers whose halt task has no undo handler (C02_undo_rerun_refuted; harmless: such a task has nothing to undo)",
                  "handlers return nil, an error, *Retry or *Wait and do not change task statuses themselves",
                  "time is the mocked timeNow of the state package; Task.At is only set through Retry.After"],
-    disabled="under construction",
 )
